@@ -709,6 +709,8 @@ impl IdlArcSqliteWriteTransaction<'_> {
         // Ensure the db commit succeeds first.
         db.commit()?;
 
+        #[cfg(feature = "verif-hooks")]
+        crate::verif::txn::crash_point("post_sql_commit");
         // Can no longer fail from this point.
         op_ts_max.commit();
         name_cache.commit();
